@@ -1,6 +1,7 @@
 package main
 
 import (
+	"bufio"
 	"bytes"
 	"context"
 	"fmt"
@@ -52,7 +53,7 @@ func c18Specs(svc string, withRules bool) []*MethodSpec {
 			case <-ctx.Done():
 			case <-time.After(2 * time.Second):
 			}
-			return nil, status.FromContextError(ctx.Err()).Err()
+			return nil, c18Err // not the context's own status: End must carry THIS error
 		}
 		if strings.HasPrefix(str(in, "name"), "fail") {
 			return nil, c18Err
@@ -713,10 +714,43 @@ func c18Edges(c *Ctx, e *c18Env) {
 			time.Sleep(150 * time.Millisecond)
 		}, "/" + fxPkg + ".Svc/U"},
 	}
+	// WebSocket over an in-process pipe: the peer vanishes, the close frame cannot be written
+	edges = append(edges, edge{"websocket: the peer vanishes before the close frame can be written", func() {
+		srvConn, cliConn := net.Pipe()
+		r := httptest.NewRequest("GET", "/c18/ws", nil)
+		r.Header.Set("Upgrade", "websocket")
+		r.Header.Set("Connection", "Upgrade")
+		r.Header.Set("Sec-WebSocket-Key", "dGhlIHNhbXBsZSBub25jZQ==")
+		r.Header.Set("Sec-WebSocket-Version", "13")
+		done := make(chan struct{})
+		go func() {
+			serveOn(fx.Mux, r.WithContext(context.Background()), hijackRW{httptest.NewRecorder(), srvConn})
+			close(done)
+		}()
+		br := bufio.NewReader(cliConn)
+		cliConn.SetDeadline(time.Now().Add(3 * time.Second))
+		for { // the handshake response
+			line, err := br.ReadString('\n')
+			if err != nil || line == "\r\n" {
+				break
+			}
+		}
+		b, _ := protojson.Marshal(c18Req(fx, "ok", "m0", 1))
+		wsutil.WriteClientMessage(cliConn, ws.OpText, b) //nolint
+		hdr, err := ws.ReadHeader(br)
+		if err == nil {
+			io.CopyN(io.Discard, br, hdr.Length) //nolint
+		}
+		cliConn.Close() // gone, without a close frame
+		select {
+		case <-done:
+		case <-time.After(3 * time.Second):
+		}
+	}, "/" + fxPkg + ".Svc/BD"})
 	for _, ed := range edges {
 		e.st.Reset()
 		ed.do()
-		evs, _ := e.st.Snapshot()
+		evs, endErrs := e.st.Snapshot()
 		c.Eval("edge", ed.name, true)
 		c.Class("edge")
 		if len(evs) == 0 {
@@ -732,9 +766,24 @@ func c18Edges(c *Ctx, e *c18Env) {
 			}
 		}
 		if nBegin != 1 || nEnd != 1 || evs[len(evs)-1] != "end" || evs[0] != "tag:"+ed.full {
-			c.SpecFail("stats", ed.name, strings.Join(evs, " "), "tag … begin … end, exactly once each", "C18/edge/end-missing/"+strings.SplitN(ed.name, ":", 2)[0], "an RPC that had begun never ended for the stats handler")
+			c.SpecFail("stats", ed.name, strings.Join(evs, " "), "tag … begin … end, exactly once each", "C18/edge/end-not-exactly-once/"+strings.SplitN(ed.name, ":", 2)[0], "an RPC that had begun did not end exactly once for the stats handler")
+		} else if strings.Contains(ed.name, "deadline passes") || strings.Contains(ed.name, "client goes away") {
+			// the slow handler returns PermissionDenied after its context is done
+			if len(endErrs) != 1 || status.Code(endErrs[0]) != codes.PermissionDenied {
+				c.SpecFail("stats", ed.name, fmt.Sprintf("end carries %v", endErrs), "the handler's PermissionDenied", "C18/edge/end-error/"+strings.SplitN(ed.name, ":", 2)[0], "End does not carry the handler's error")
+			}
 		}
 	}
+}
+
+// hijackRW: a recorder whose connection can be taken over (WebSocket upgrade in process).
+type hijackRW struct {
+	*httptest.ResponseRecorder
+	conn net.Conn
+}
+
+func (h hijackRW) Hijack() (net.Conn, *bufio.ReadWriter, error) {
+	return h.conn, bufio.NewReadWriter(bufio.NewReader(h.conn), bufio.NewWriter(h.conn)), nil
 }
 
 func c18Key(why string) string {
